@@ -397,6 +397,7 @@ def run_path(h, cfg, ctx, prefix, validate=True):
             res["hazards"] += [(k, d, m, None) for (k, d, dec, m) in ctx.hazards]
             res["reached"] = list(ctx.reached)
         res["decisions"] = list(ctx.decisions)
+        res["steps"] = int(ctx.notes.get("steps", 0))
         res["pending"] = list(ctx.pending)
         if validate and res["status"] == "ok" and pm is not None:
             res["validated"], res["vdetail"] = validate_path(h, cfg, ctx, pm)
@@ -569,7 +570,7 @@ class Agg:
         if st == "infeasible":
             return
         self.paths += 1
-        self.decisions += len(r["decisions"] or [])
+        self.decisions += len(r["decisions"] or []) + int(r.get("steps", 0))
         if st == "abort":
             k = (r["detail"] or "")[:160]
             self.aborts[k] = self.aborts.get(k, 0) + 1
